@@ -26,15 +26,17 @@ let rec take_groups (ws : 'a list) (lens : int list) : 'a list list =
       let rec split k xs acc = if k = 0 then (List.rev acc, xs) else (match xs with [] -> (List.rev acc, []) | x :: t -> split (k - 1) t (x :: acc)) in
       let (g, rest) = split l ws [] in
       g :: take_groups rest r
-let rec_hits = ref 0 and rec_miss = ref 0 and rec_same_as_dp = ref 0
+let rec_hits = ref 0 and rec_miss = ref 0 and rec_same_as_dp = ref 0 and rec_same_as_smawk = ref 0
 let ofit_of (h : (string, int list) Hashtbl.t) (p : penalties) (ws : word list) (lws : n list) : word list list option =
   match Hashtbl.find_opt h (rec_key p ws lws) with
   | Some lens ->
       incr rec_hits;
       let g = take_groups ws lens in
       (match ofit_dp p ws lws with Some d when d = g -> incr rec_same_as_dp | _ -> ());
-      Some g
-  | None -> incr rec_miss; ofit_dp p ws lws
+      let sm = ofit_smawk p ws lws in
+      (match sm with Some d when d = g -> incr rec_same_as_smawk | _ -> ());
+      sm                              (* the model of smawk decides; the record is a cross-check *)
+  | None -> incr rec_miss; ofit_smawk p ws lws
 
 type env = { lbc : str -> n list; ofit : penalties -> word list -> n list -> word list list option }
 
@@ -88,7 +90,7 @@ let model (e : env) (fields : string array) : string =
       end else sq
   | "of" ->
       let p = dpen (f 3) in
-      let rq = optimal_fit numQ id p (List.map (dfrag_with qconv) (dlist (f 1))) (List.map qconv (dlist (f 2))) in
+      let rq = optimal_fit_smawk numQ (fun a b -> qeq_bool (Obj.obj a) (Obj.obj b)) id p (List.map (dfrag_with qconv) (dlist (f 1))) (List.map qconv (dlist (f 2))) in
       opt_or_panic egroups rq
   | "wrap" -> wrap_s e (dopts (f 1)) (ds (f 2))
   | "fill" -> opt_or_panic es (fill cw alnum e.lbc cs e.ofit (dopts (f 1)) (ds (f 2)))
@@ -221,5 +223,5 @@ let () =
        end
      done
    with End_of_file -> ());
-  Printf.printf "0\tSTAT\trec\t%d hits, %d misses, %d equal to the reference DP\n" !rec_hits !rec_miss !rec_same_as_dp;
+  Printf.printf "0\tSTAT\trec\t%d recorded partitions, %d without record, %d equal to the model of smawk, %d equal to the reference DP\n" !rec_hits !rec_miss !rec_same_as_smawk !rec_same_as_dp;
   flush stdout
